@@ -282,6 +282,74 @@ func oracle(c *Case) (facts, error) {
 	if !srv.Alive() {
 		return f, fmt.Errorf("server died: %s", clip(srv.Output()))
 	}
+	if len(c.DriverQs) > 0 && len(d.Columns()) > 0 {
+		// bound arguments of several Go types: the grpc data source, directly and
+		// through a prepared statement, must answer exactly like the file data
+		// source (whatever text a type is bound as, it is the same text)
+		col := d.Columns()[0]
+		val := d.Values(col)[0]
+		text := queryparser.QueryToString(&pb.Query{Expr: &pb.Query_Expression{Value: &pb.Query_Expression_Eq{Eq: &pb.Query_Expression_Equal{Column: col, Placeholder: 1}}}})
+		gdb, err := sql.Open("updog", "grpc://"+srv.Addr)
+		if err != nil {
+			return f, fmt.Errorf("sql.Open grpc: %v", err)
+		}
+		fdb, err := sql.Open("updog", "file:"+path)
+		if err != nil {
+			gdb.Close()
+			return f, fmt.Errorf("sql.Open file: %v", err)
+		}
+		ask := func(db *sql.DB, prepared bool, arg any) string {
+			var out string
+			err := fix.Safe(func() error {
+				var r *sql.Rows
+				var e error
+				if prepared {
+					st, pe := db.Prepare(text)
+					if pe != nil {
+						return pe
+					}
+					defer st.Close()
+					r, e = st.Query(arg)
+				} else {
+					r, e = db.Query(text, arg)
+				}
+				if e != nil {
+					return e
+				}
+				got, e := fix.ScanAll(r)
+				if e != nil {
+					return e
+				}
+				out = fmt.Sprint(got.Cols, got.Rows)
+				return nil
+			})
+			if fix.IsPanic(err) {
+				return "PANIC: " + err.Error()
+			}
+			if err != nil {
+				return "error"
+			}
+			return out
+		}
+		var firstErr error
+		for _, arg := range []any{val, []byte(val), int64(7), int32(1), true, 1.5, float32(0.1), 1e6, uint16(9)} {
+			ref := ask(fdb, false, arg)
+			for _, v := range []struct {
+				name string
+				db   *sql.DB
+				prep bool
+			}{{"file data source, prepared", fdb, true}, {"grpc data source, direct", gdb, false}, {"grpc data source, prepared", gdb, true}} {
+				if got := ask(v.db, v.prep, arg); got != ref && firstErr == nil {
+					firstErr = fmt.Errorf("query %+q with the argument %T(%v): %s returns %s, the file data source (direct) returns %s", text, arg, arg, v.name, clip(got), clip(ref))
+				}
+			}
+		}
+		gdb.Close()
+		fdb.Close()
+		if firstErr != nil {
+			return f, firstErr
+		}
+	}
 	if c.Restart && len(d.Columns()) > 0 {
 		col := d.Columns()[0]
 		val := d.Values(col)[0]
